@@ -67,7 +67,7 @@ class HyperWorld(World):
         cfg = {
             "params": p, "mesh": mesh, "rho": float(np.round(rng.uniform(0.5, 3), 3)), "clamped": bool(rng.random() < 0.7),
             "stress": ["gonzalez", "gonzalez", "quadrature", "quadrature_fixed", "quadrature_fixed", "pointwise"][int(rng.integers(6))],
-            "nPoints": [1, 1, 2, 3, 5][int(rng.integers(5))],
+            "nPoints": [1, 1, 2, 3, 5, 4, 6][int(rng.integers(7))],
             # non-conservative ingredients (no energy oracle then; the Newton system must still be the derivative of the
             # residual): Kelvin-Voigt viscosity and an active fibre stress
             "eta": float(np.round(rng.uniform(0.01, 1.0), 3)) if rng.random() < 0.2 else 0.0,
